@@ -361,7 +361,7 @@ func readSizes(m mechSpec, gm bool) []int {
 
 func TestC17_Prng(t *testing.T) {
 	h.Prop(t, h.P{Name: "prng", Quick: 4000, Thorough: 100000}, func(t *rapid.T) prngCase {
-		m := rapid.SampledFrom(mechs).Draw(t, "mech")
+		m := pickMech(t, mechs)
 		gm := rapid.Bool().Draw(t, "gm")
 		c := prngCase{Mech: m.Name, GM: gm, Wrap: rapid.Bool().Draw(t, "wrap"), FailAt: -1, FailKind: "error"}
 		if chance(t, "oddStrength", 15) {
